@@ -81,6 +81,10 @@ def run(ck):
     from . import c07
     from ..framework import RuleAlias
     c07.run(RuleAlias(ck, lambda r: "C16-R8"))
+    # ... and the names handed to the distributor are the two names of the file patch (C06-R8): registered under one name twice, the
+    # other name's earlier patches run on another worker and their result is not seen
+    from . import c06
+    c06.run(RuleAlias(ck, lambda r: "C16-R9" if r == "C06-R8" else None))
 
 
 def r1(ck):
